@@ -611,17 +611,21 @@ fn run_with_old(sc: &Scenario, run: &mut Run, w1: &mut HW) -> Result<(), String>
         if !sc.handover {
             if let Some(a) = tcpish.first() {
                 trace.push("ho-connect".into());
+                let alive_before = w1.exited().is_none();
                 let served = match can_connect(*a) {
                     Err(_) => false,
                     Ok(s) => {
-                        // accepted by the kernel; did the worker take it? (it would read and answer or close at once)
+                        // the kernel completed the handshake; did the worker take the connection? It
+                        // then answers, or closes it at once (a fresh session reports shutting_down);
+                        // a connection nobody accepts just sits in the backlog
                         let mut c = RawConn::from_stream(s);
                         let _ = c.write_all(b"GET /late HTTP/1.1\r\nHost: nowhere.local\r\n\r\n", T);
-                        matches!(c.read_until(b"\r\n\r\n", Duration::from_millis(300)), ReadEnd::Done)
+                        let end = c.read_until(b"\r\n\r\n", Duration::from_millis(300));
+                        alive_before && w1.exited().is_none() && matches!(end, ReadEnd::Done | ReadEnd::Closed | ReadEnd::Reset)
                     }
                 };
                 if served {
-                    run.fail("accepted-after-stop-ack", format!("{a}: a connection made after SoftStop was served by the stopping worker"));
+                    run.fail("accepted-after-stop-ack", format!("{a}: a connection made after SoftStop was taken (answered or closed) by the stopping worker"));
                 }
                 observed.push(format!("{} exited={}", if served { "accepted" } else { "refused" }, w1.exited().is_some() as u8));
             }
